@@ -21,6 +21,8 @@ TRUSTED_BASE = [
 ]
 PROPERTY_ASSUMPTIONS = {}
 
+NOSTD = "encoder,xz,lzip,optimization"   # no_std build: crate-local Read/Write/Error (no io::Error drop glue)
+
 UNITS = []
 
 
@@ -87,3 +89,24 @@ U(id="C05.xz.pad", props=["C05", "C04"], file="xz/reader.rs", extra_files=["xz.r
   functions=[("src/xz/reader.rs", "consume_padding")],
   stubs=ERR + ["io_any: Read stub delivering short reads / Interrupted nondeterministically on every call"],
   contract="for every start position and every read schedule (short reads, Interrupted): Ok <=> the (4-pos%4)%4 padding bytes are zero, exactly those are consumed; EOF inside padding => Err")
+
+U(id="C04.xz.block", props=["C04", "C02", "C16"], file="xz/reader.rs", extra_files=["xz.rs"],
+  harnesses=['c04_xz_block_end_none_p0', 'c04_xz_block_end_none_p3', 'c04_xz_block_end_crc32_p0', 'c04_xz_block_end_crc32_p1', 'c04_xz_block_end_crc32_p2', 'c04_xz_block_end_crc32_p3', 'c04_xz_block_end_crc64_p3', 'c04_xz_block_end_crc64_p0'],
+  thorough_harnesses=['c04_xz_block_end_sha256_p1'],
+  kind="bounded", bound="block payload of 1..3 bytes; padding 0..3 and the four check types as 9 concrete combinations; stored padding/check bytes arbitrary",
+  functions=[("src/xz/reader.rs", "read", "Read for XZReader"), ("src/xz/reader.rs", "consume_padding"), ("src/xz/reader.rs", "verify_block_checksum"),
+             ("src/xz.rs", "verify", "ChecksumCalculator"), ("src/xz.rs", "update", "ChecksumCalculator"), ("src/xz.rs", "new", "ChecksumCalculator")],
+  contract_stubs=["payload layer: the block's filter chain + LZMA2Reader replaced by a stub yielding n<=3 arbitrary bytes then end"],
+  contract="bytes returned to the caller = bytes fed to the check; at block end: accepted <=> padding zero and stored Check = check_fn(yielded bytes), exactly pad+check bytes consumed; otherwise Err(InvalidData)")
+U(id="C07.xz.zero", props=["C07"], file="xz/reader.rs", extra_files=["xz.rs"],
+  harnesses=["c07_xz_zero_read_in_block", "c07_xz_zero_read_fresh_and_finished"],
+  functions=[("src/xz/reader.rs", "read", "Read for XZReader")],
+  contract_stubs=["payload layer stub (as C04.xz.block)"],
+  contract="read(&mut []) returns Ok(0) without consuming source bytes, closing the block or touching the checksum; the next read continues the block")
+U(id="C06.xz.index", props=["C06", "C04"], file="xz/reader.rs", extra_files=["xz.rs"],
+  harnesses=["c06_xz_index_count_k%d_e%d" % c for c in [(1,0),(2,0),(2,3),(5,2)]],
+  thorough_harnesses=["c06_xz_index_count_k1_e4"],
+  functions=[("src/xz/reader.rs", "parse", "Index")],
+  contract_stubs=["Vec::with_capacity -> asserts capacity*size_of<T> <= 64 KiB, returns Vec::new()"],
+  kind="bounded", bound="record count = any value of encoded length 1,2,5 (< 2^35) followed by <= 4 arbitrary bytes",
+  contract="Index::parse returns without panic and its pre-allocation is bounded by the input length, for every declared record count")
